@@ -616,3 +616,50 @@ def rule_rdp_spans(db, chk, cfg, rule="RDP.spans"):
     if n < 16:
         raise AnalysisBroken("RDP.spans: only %d guard cells evaluated" % n)
     return n
+
+
+# ---------------------------------------------------------------------------
+# TAIL.loop: trailing points equal / near-equal to the first one are removed until none is left
+# ---------------------------------------------------------------------------
+
+def rule_tail_loop(db, chk, cfg, rule="TAIL.loop"):
+    """StripDuplicates and StripNearEqual, closed paths: the result must not end with a point equal resp. near-equal to its first point.
+    The tail is removed by `pop_back()`; each such call sits in a loop whose condition itself compares the last point with the first
+    one - so the loop's exit condition *is* the postcondition.  (Near-equality is not transitive: one removal can expose another
+    point that is near the first one.)"""
+    n = 0
+    for q in ("StripDuplicates", "StripNearEqual"):
+        for f in db.find(q):
+            if f.is_pattern or f.body is None or "Paths<" in f.sig.split("(")[1].split(",")[0] or "vector<vector" in (dqt(f.params[0]) or ""):
+                continue
+            par = {}
+            for x in walk(f.body):
+                for c in kids(x):
+                    if isinstance(c, dict):
+                        par[id(c)] = x
+            for c in walk(f.body):
+                if c.get("kind") != "CXXMemberCallExpr" or db.callee(c)[0] != "pop_back":
+                    continue
+                n += 1
+                p = par.get(id(c))
+                loop = None
+                while p is not None:
+                    if p.get("kind") in ("WhileStmt", "ForStmt", "DoStmt"):
+                        loop = p
+                        break
+                    p = par.get(id(p))
+                ok = False
+                if loop is not None:
+                    ks = kids(loop)
+                    cond = ks[-1] if loop.get("kind") == "DoStmt" else (ks[2] if loop.get("kind") == "ForStmt" and len(ks) >= 4 else
+                                                                         ([c0 for c0 in ks[:-1] if isinstance(c0, dict) and c0.get("kind")] or [None])[-1])
+                    t = canon(cond) if isinstance(cond, dict) else ""
+                    ok = ".back()" in t and ("front()" in t or "first" in t or "[0]" in t or "begin()" in t)
+                chk.instance(rule, {"function": f.qual, "sig": f.sig[:50], "pop_back": where(c), "in_loop_comparing_back_with_first": ok, "cfg": cfg}, ok=ok)
+                if not ok:
+                    chk.violation(rule, f.qual, "%s|%s" % (f.sig[:30], c.get("line")), "%s removes a trailing point with pop_back() %s: after one removal the new last point can "
+                                  "again be (near-)equal to the first one, so a closed path may still end on its start"
+                                  % (f.qual, "outside any loop" if loop is None else "in a loop whose condition does not compare the last point with the first"), where(c), cfg=cfg)
+    if n < 2:
+        raise AnalysisBroken("TAIL.loop: only %d pop_back() calls found in StripDuplicates / StripNearEqual" % n)
+    return n
